@@ -96,7 +96,7 @@ def newtype_invariant(ctx, rep, P):
                                     why = "difference of a valid size"
                     rep.check(P + ".inv", "%s: %s built through map is within its limit" % (strip_generics(b.path) if not b.path.startswith("<") else b.path, ty.rsplit("::", 1)[1]), why is not None, loc_of(b, t), why or "",
                               "%s is applied to a value that is not shown to be <= %d (the `<= MAX` filter is missing): sizes beyond 24 bits would be accepted" % (ty.rsplit("::", 1)[1], mx))
-    rep.floor(P + ".inv", "BlockSize / BlockBits constructions", n, 18)
+    rep.floor(P + ".inv", "BlockSize / BlockBits constructions", n, 8)
 
 
 def const_of(b, o):
